@@ -34,7 +34,8 @@ NoRes == [err |-> "", vid |-> -1, dm |-> FALSE, uid |-> -1]
 \*   bytes, FALSE = MD5-of-part-MD5s "-N"), ctype, meta [sys,user,redir], tags,
 \*   class, wseq (time of last write to this version), cseq (row creation time),
 \*   mseq (time Last-Modified was last set), seq1 (part rows numbered from 1, as a
-\*   completed multipart upload leaves them; everything else numbers from 0)
+\*   completed multipart upload leaves them; everything else numbers from 0),
+\*   pcls (per part: the storage class that routed the part's bytes to a part store)
 
 EmptyMeta == [sys |-> None, user |-> None, redir |-> None]
 
@@ -130,7 +131,7 @@ PutVersioning(S, b, status) ==
 NewRec(S, vid, nr, cseq) ==
   [vid |-> vid, dm |-> FALSE, latest |-> TRUE, parts |-> nr.parts, single |-> nr.single,
    ctype |-> nr.ctype, meta |-> nr.meta, tags |-> nr.tags, class |-> nr.class,
-   wseq |-> S.clock, cseq |-> cseq, mseq |-> S.clock, seq1 |-> nr.seq1]
+   wseq |-> S.clock, cseq |-> cseq, mseq |-> S.clock, seq1 |-> nr.seq1, pcls |-> nr.pcls]
 
 Install(S, b, k, nr, cond, rowCseq) ==
   LET vs == Versions(S, b, k)
@@ -158,7 +159,8 @@ ClassOf(c) == IF c = None THEN "STANDARD" ELSE c
 PutObject(S, b, k, blob, ctype, meta, tags, class, cond) ==
   IF ~Exists(S, b) THEN Err(S, "NoSuchBucket")
   ELSE Install(S, b, k, [parts |-> << <<blob>> >>, single |-> TRUE, ctype |-> ctype,
-                         meta |-> meta, tags |-> tags, class |-> ClassOf(class), seq1 |-> FALSE], cond, 0)
+                         meta |-> meta, tags |-> tags, class |-> ClassOf(class), seq1 |-> FALSE,
+                         pcls |-> <<ClassOf(class)>>], cond, 0)
 
 \* ------------------------------------------------------------------ reads
 \* view of one version as Head/Get report it
@@ -196,7 +198,7 @@ DeleteObject(S, b, k, vid, cond) ==
            v == S.nv
            marker == [vid |-> v, dm |-> TRUE, latest |-> TRUE, parts |-> <<>>, single |-> TRUE,
                       ctype |-> None, meta |-> EmptyMeta, tags |-> None, class |-> "STANDARD",
-                      wseq |-> S.clock, cseq |-> S.clock, mseq |-> S.clock, seq1 |-> FALSE]
+                      wseq |-> S.clock, cseq |-> S.clock, mseq |-> S.clock, seq1 |-> FALSE, pcls |-> <<>>]
            vs2 == Append(ClearLatest(S, vs1), marker)
        IN [s |-> Tick([SetKey(S, b, k, vs2) EXCEPT !.nv = @ + 1]),
            r |-> [NoRes EXCEPT !.vid = v, !.dm = TRUE]]
@@ -230,7 +232,8 @@ CopyObject(S, sb, sk, svid, db, dk, mdir, tdir, ctype, meta, tags, class) ==
                   ctype |-> IF mdir = "REPLACE" THEN ctype ELSE sv.ctype,
                   meta |-> nmeta,
                   tags |-> IF tdir = "REPLACE" THEN tags ELSE sv.tags,
-                  class |-> ClassOf(class), seq1 |-> FALSE]
+                  class |-> ClassOf(class), seq1 |-> FALSE,
+                  pcls |-> [j \in 1..Len(sv.parts) |-> ClassOf(class)]]
        IN Install(S, db, dk, nr, "none", 0)
 
 \* ----------------------------------------------------------------- append
@@ -245,7 +248,8 @@ AppendObject(S, b, k, blob, off) ==
   ELSE LET vs == Versions(S, b, k)
            inPlace == "D-C13-append-suspended-in-place" \in S.dev
            fresh == [parts |-> << <<blob>> >>, single |-> FALSE, ctype |-> None,
-                     meta |-> EmptyMeta, tags |-> None, class |-> "STANDARD", seq1 |-> FALSE] IN
+                     meta |-> EmptyMeta, tags |-> None, class |-> "STANDARD", seq1 |-> FALSE,
+                     pcls |-> <<"STANDARD">>] IN
   IF off = "mismatch" THEN Err(S, "InvalidWriteOffset")
   ELSE IF ~HasCurrent(vs)
   THEN IF LatestIdx(vs) # 0 /\ S.bver[b] # "Enabled" /\ inPlace
@@ -262,7 +266,8 @@ AppendObject(S, b, k, blob, off) ==
                 nr == [parts |-> nparts, single |-> FALSE, ctype |-> cur.ctype,
                        meta |-> IF keep THEN cur.meta ELSE EmptyMeta,
                        tags |-> IF keep THEN cur.tags ELSE None,
-                       class |-> IF keep THEN cur.class ELSE "STANDARD", seq1 |-> FALSE]
+                       class |-> IF keep THEN cur.class ELSE "STANDARD", seq1 |-> FALSE,
+                       pcls |-> Append(cur.pcls, cur.class)]
             IN Install(S, b, k, nr, "none", 0)
        ELSE IF (cur.vid = 0 \/ inPlace) /\ cur.seq1
        THEN \* Quirk (not covered by a listed property): the appended part row is numbered
@@ -273,10 +278,12 @@ AppendObject(S, b, k, blob, off) ==
        THEN \* in-place extension of the current row
             LET i == LatestIdx(vs)
                 vs2 == [vs EXCEPT ![i] = [cur EXCEPT !.parts = nparts, !.single = FALSE,
-                                                     !.wseq = S.clock, !.mseq = S.clock]]
+                                                     !.wseq = S.clock, !.mseq = S.clock,
+                                                     !.pcls = Append(cur.pcls, cur.class)]]
             IN Ok(Tick(SetKey(S, b, k, vs2)))
        ELSE Install(S, b, k, [parts |-> nparts, single |-> FALSE, ctype |-> cur.ctype, meta |-> cur.meta,
-                              tags |-> cur.tags, class |-> cur.class, seq1 |-> FALSE], "none", 0)
+                              tags |-> cur.tags, class |-> cur.class, seq1 |-> FALSE,
+                              pcls |-> Append(cur.pcls, cur.class)], "none", 0)
 
 \* -------------------------------------------------------------- multipart
 CreateUpload(S, b, k, ctype, meta, tags, class) ==
@@ -334,7 +341,8 @@ CompleteUpload(S, b, k, u, manifest, cond) ==
        IF \E j \in 1..Len(ps) : ps[j].n # j THEN Err(S, "InvalidUploadSequence")
        ELSE IF ManifestErr(ps, manifest) # "" THEN Err(S, ManifestErr(ps, manifest))
        ELSE LET nr == [parts |-> [j \in 1..Len(ps) |-> ps[j].c], single |-> FALSE, ctype |-> up.ctype,
-                       meta |-> up.meta, tags |-> up.tags, class |-> up.class, seq1 |-> Len(ps) >= 1]
+                       meta |-> up.meta, tags |-> up.tags, class |-> up.class, seq1 |-> Len(ps) >= 1,
+                       pcls |-> [j \in 1..Len(ps) |-> up.class]]
                 res == Install(S, b, k, nr, cond, up.cseq) IN
             IF res.r.err # "" THEN res
             ELSE [s |-> [res.s EXCEPT !.ups = RemoveAt(@, i)], r |-> res.r]
@@ -361,6 +369,7 @@ Transition(S, b, k, vid, class, cond) ==
     ELSE IF vs[i].dm THEN Err(S, "NoSuchKey")
     ELSE IF cond = "ifm-stale" THEN Err(S, "PreconditionFailed")
     ELSE Ok(Tick(SetKey(S, b, k, [vs EXCEPT ![i].class = class, ![i].seq1 = FALSE,
+                                              ![i].pcls = [j \in 1..Len(vs[i].parts) |-> class],
                                               ![i].mseq = IF "D-C13-mtime-bump-on-transition" \in S.dev
                                                           THEN S.clock ELSE @])))
 
@@ -401,5 +410,9 @@ KeyOK(S, b, k) ==
         \A j \in 1..Len(vs) : vs[j].wseq <= vs[i].wseq
   /\ S.bver[b] = "Unset" => Len(vs) <= 1 /\ \A i \in 1..Len(vs) : vs[i].vid = 0
   /\ S.bver[b] = "Absent" => vs = <<>>
+\* C14 (design): every part of a version lives in the store its class maps to
+PlacedByClass(S, StoreOf(_)) ==
+  \A b \in DOMAIN S.bver : \A k \in DOMAIN S.objs[b] : \A i \in 1..Len(S.objs[b][k]) :
+     \A j \in 1..Len(S.objs[b][k][i].pcls) : StoreOf(S.objs[b][k][i].pcls[j]) = StoreOf(S.objs[b][k][i].class)
 StateOK(S) == \A b \in DOMAIN S.bver : \A k \in DOMAIN S.objs[b] : KeyOK(S, b, k)
 =============================================================================
